@@ -182,6 +182,29 @@ def sdml_max_balance(name, data, params):
 
 
 _FIT_CACHE = {}
+KF_ITML = 'known-finding ITML NonPSDError on large-scale data (logscale >= 1, prior != covariance)'
+
+
+def itml_largescale(name, desc, params):
+  p = params.get('prior', 'identity')
+  return name in ('ITML', 'ITML_Supervised') and desc.get('logscale', 0) >= 1 and \
+      not (isinstance(p, str) and p == 'covariance')
+
+
+def fit_call(sig, name, est, args, desc, params, expect=(), kw=None, report_kf=False):
+  """est.fit(*args) through `call`; the recorded known finding KF-ITML (see DESIGN section 5) is
+  turned into a counted Discard unless the calling property owns it (report_kf)."""
+  from .common import Violation, Discard
+  try:
+    return call('%s/%s' % (sig, name), est.fit, *args, expect=expect, **(kw or {}))
+  except Violation as v:
+    if v.sig.endswith('raises-NonPSDError') and itml_largescale(name, desc, params):
+      if report_kf:
+        raise Violation(v.sig + '/largescale', v.msg)
+      raise Discard(KF_ITML)
+    raise
+
+
 
 
 def fit(name, opts, desc, aseed=0, extra=None, sig='fit', expect=(), cache=True):
@@ -193,7 +216,7 @@ def fit(name, opts, desc, aseed=0, extra=None, sig='fit', expect=(), cache=True)
   data = gen.Data(desc)
   params = materialize(name, opts, data, aseed, extra)
   est = build(name, params)
-  res = call('%s/%s' % (sig, name), est.fit, *fit_args(name, data), expect=expect)
+  res = fit_call(sig, name, est, fit_args(name, data), desc, params, expect=expect)
   out = (est if not isinstance(res, Exception) else res, data, params)
   if cache:
     if len(_FIT_CACHE) > 64:
